@@ -25,7 +25,7 @@ pub(super) fn write_wal(mut wal_fd: &File, wal_blob: &[u8]) -> std::io::Result<(
     crate::verif::io::before_fd(
         wal_fd.as_raw_fd(),
         crate::verif::io::Kind::Write {
-            off: 0,
+            off: crate::verif::io::current_offset(wal_fd.as_raw_fd()),
             data: wal_blob.to_vec(),
         },
     )?;
